@@ -87,6 +87,7 @@ unsafe extern "C" fn stream_write(sink: &mut lolhtml::streaming::CStreamingHandl
         let rest = &s.as_bytes()[mid..];
         if rest.len() >= 2 {
             rc |= lol_html_streaming_sink_write_utf8_chunk(sink, rest.as_ptr() as *const c_char, 1, pl.html);
+            rc |= lol_html_streaming_sink_write_utf8_chunk(sink, rest.as_ptr() as *const c_char, 0, pl.html);
             rc |= lol_html_streaming_sink_write_utf8_chunk(sink, rest[1..].as_ptr() as *const c_char, rest.len() - 1, pl.html);
         } else {
             rc |= lol_html_streaming_sink_write_utf8_chunk(sink, rest.as_ptr() as *const c_char, rest.len(), pl.html);
